@@ -204,6 +204,13 @@ def main(chk):
             for count in (1, 2):
                 cases.append((r, "dst", "none", count, True, platform, False))
                 cases.append((r, "src", "none", count, False, platform, False))
+    # ranges whose ends have different digit counts (9-10, 98-101, 2-11: text order and number order of the ends disagree), expanded and kept
+    for r in ("9-10", "98-101", "2-11", "80-443", "5,9998-10001,6", "99-100,7", "8-12,1000-1002"):
+        for policy in (True, False):
+            for side in ("src", "dst"):
+                for count in (1, 3):
+                    cases.append((r, side, "none", count, policy, "ios", True))
+            cases.append((r, "dst", "none", 1, policy, "nxos", True))
     # requests that contain the full range (the dependency answers those in a brief form)
     for r in (("1-65535", "1-65535,5", "5,1-65535", "2-65535", "1-65534") if chk.tier == "thorough" else ("1-65535,5", "1-65535")):
         for policy in (True, False):
